@@ -124,9 +124,17 @@ def run(ctx):
     changed = 0
     blocks = []
     exps = []
+    slow_skipped = 0
+    kept = []
     for gr, strings, mus in hist:
-        cls, rules, warm_out, warm_api = run_history(P, gr, strings, mus, warm=True)
-        _, _, cold_out, cold_api = run_history(P, gr, strings, mus, warm=False)
+        # a grammar on which the real code needs more than a few CPU seconds for these short inputs is a matter for C12
+        # (work bound, known finding F14): skipped and counted
+        both = ec.with_budget(4 * ec.CASE_BUDGET_S, lambda: (run_history(P, gr, strings, mus, warm=True), run_history(P, gr, strings, mus, warm=False)), None)
+        if both is None:
+            slow_skipped += 1
+            continue
+        kept.append((gr, strings, mus))
+        (cls, rules, warm_out, warm_api), (_, _, cold_out, cold_api) = both
         base_cls, base_rules = G.build(P, gr)
         differs = False
         for (s, i, w0), (_, _, c0), wa, ca in zip(warm_out, cold_out, warm_api, cold_api):
@@ -153,7 +161,7 @@ def run(ctx):
     outs = lib.run_driver_parallel(blocks)
     dis = 0
     samples = []
-    for (gr, strings, mus), exp, out in zip(hist, exps, outs):
+    for (gr, strings, mus), exp, out in zip(kept, exps, outs):
         for (s, i, cl, w), ln in zip(exp, out[1:]):
             if w != ln:
                 dis += 1
@@ -167,7 +175,7 @@ def run(ctx):
                 "direct assignment, first-match toggle, exclusion) with probes in between, final probes; compared with a twin built directly in the final state "
                 "and with the model on the final grammar; non-trivial = the mutation changed at least one probe result w.r.t. the unmutated grammar",
         "samples": [{"grammar": repr(h[0]), "strings": h[1], "mutations": repr(h[2])} for h in hist[:2] + hist[len(CORPUS):len(CORPUS) + 1]],
-        "histories": len(hist), "disagreements_model_vs_impl": dis,
+        "histories": len(hist), "slow_histories_skipped": slow_skipped, "disagreements_model_vs_impl": dis,
     })
     cc.conclude(ctx, dis, found)
 
